@@ -9,6 +9,18 @@ pub fn gen(rng: &mut Rng, _index: u64) -> String {
     let a = gen_valid(rng, k);
     let b = gen_valid(rng, k);
     let a2 = variant(rng, &a);
+    // a third of the cases live far from the origin (exact integer translation, optional 2^k
+    // scaling): crossing points that are not representable get rounded differently there
+    let (a, a2, b) = if rng.chance(1, 3) {
+        use geo::algorithm::map_coords::MapCoords;
+        let s = 2f64.powi(rng.range(-2, 3) as i32);
+        let m = *rng.pick(&[20i64, 1000, 1 << 20, 1 << 27]);
+        let (dx, dy) = (rng.range(-m, m) as f64, rng.range(-m, m) as f64);
+        let f = move |p: geo_types::Coord<f64>| geo_types::Coord { x: (p.x + dx) * s, y: (p.y + dy) * s };
+        (a.map_coords(f), a2.map_coords(f), b.map_coords(f))
+    } else {
+        (a, a2, b)
+    };
     format!("C01.rel {} {} {}", proto::geom(&a), proto::geom(&a2), proto::geom(&b))
 }
 
